@@ -13,6 +13,45 @@ NOTES = ("Technique family: deterministic simulation with fault injection. One i
 
 # (id, level category, level text, design ref, level note, technique, engine)
 CHECKS = [
+ ("C12", "exploration",
+  "Fault enumeration on the real binary plus seeded exploration under the simulated scheduler. Enumerated every run (E1): `new -n L` for all L in 0..=40 x 19 "
+  "entropy-source responses (degenerate byte patterns, random values, EIO, ENOSYS, EIO after scribbling the buffer), and single-searcher vanity searches "
+  "(-j 0, -j 1) for the five lengths x plant position 0..=6 x a failure injected at each request of the search. Explored (E2): vanity searches with 2..64 "
+  "workers under seeded random/sticky/PCT-like schedules with a failure at a seeded request. Oracle over the recorded history: the printed phrase is a valid "
+  "L-word BIP-39 phrase whose entropy is exactly one of the byte strings the source delivered to this process in a request of exactly ENT bytes; unsupported "
+  "lengths refused; a failure before any qualifying value means error exit and empty stdout (multi-worker: success only with delivered qualifying entropy, error "
+  "only if a failure was delivered); every printed phrase is accepted by the real `address --mnemonic`. Sampling, not proof.",
+  "DESIGN.md §5.1",
+  "Trusted: RustCrypto primitives and the canonical English list copy used by the reference BIP-39; the kernel/loader; shuttle's thread/channel models. "
+  "E1 never decides a run with more than one searching thread; E2 stubs src/main.rs and is cross-validated against E1 on single-searcher runs. "
+  "Exact-membership provenance deliberately counts 'several smaller requests' as a violation of the anchored single-call mechanism.",
+  "deterministic simulation: enumerated + seeded fault injection at the getentropy boundary (LD_PRELOAD / link-time device), seeded scheduler for the threaded search, history oracle against a reference BIP-39",
+  "procsim (E1) + threadsim (E2)"),
+ ("C18", "exploration",
+  "Seeded exploration over schedules x entropy plans x configurations of the vanity search under our own seeded recording scheduler (E2): all 16 one-digit "
+  "prefixes in both cases x thread counts 0,1,2,16 enumerated every run, then seeded scenarios (prefix of 0..40 digits derived from the reference address of a "
+  "planted entropy value, per-letter case flips, passphrases, account index or explicit path, 0..64 workers, plant position 0..12, random/sticky/PCT-like "
+  "policies). Oracle: exit 0 => one line, a reference-valid phrase of the requested length whose reference-derived address for the selected account starts "
+  "with the requested digits and whose entropy was really delivered; valid arguments and no injected failure => exit 0; non-hex prefix refused; bounded "
+  "liveness after the device turns generous; no deadlock. Failures are replayed from an explicit minimised choice trace. Sampling, not proof.",
+  "DESIGN.md §5.2",
+  "Decided by simulation: independence of the result from which worker finishes first and from the interleaving of entropy delivery and channel operations. "
+  "The prefix parsing/comparison clauses for a fixed schedule are input properties sampled by the same workload. Trusted: reference wallet (RustCrypto), shuttle models; "
+  "std OnceLock is real and uncontrolled (no scheduling point inside). E2 stubs src/main.rs; single-searcher runs are re-run on the real binary and must agree.",
+  "deterministic simulation: seeded schedule search (own shuttle Scheduler: random walk, sticky, PCT-like) with planted entropy, reference-wallet oracle, bounded-liveness check",
+  "threadsim (E2) + procsim (E1) cross-validation"),
+ ("C17", "exploration",
+  "Two halves. (i) Decided by schedule/fault search (E2): `new` with 0..64 workers x argument tuples that make key derivation fail or die inside a worker, "
+  "entropy failures at every early position, all scheduler policies; invariant: no task panics, no deadlock before exit (a dead worker is modelled as thread "
+  "death, so 'all workers died' shows up as the main thread blocked for ever), exit within 16*(workers+2) steps once the device is generous. "
+  "(ii) Sampled by the workload (E1, real binary): boundary-biased and mutated-valid inputs for every user-reachable parser; invariant: exit status in {0,2,255}, "
+  "no signal, termination within 10 s. Half (ii) is input generation run by the simulator, not a decision by simulation. Sampling, not proof.",
+  "DESIGN.md §5.3",
+  "Checked-optimised build (overflow-checks, debug-assertions) so overflow is a panic. Worker counts bounded to 0..=64, prefixes to what the planted/generous device can "
+  "satisfy. A parser panic the generator does not draw is not found; per-family counts are in the evidence. Library-level entry points not reachable from the CLI "
+  "(e.g. Path::for_index(usize >= 2^32), LegacyTransaction built in code with a huge chain id) are outside what this check observes.",
+  "deterministic simulation: seeded schedule/fault search for hang+panic of the threaded search (shuttle, own scheduler); seeded boundary workload on the real binary for parser crashes",
+  "threadsim (E2) + procsim (E1)"),
  ("C19", "exploration",
   "Seeded exploration of the two-process `hex encode | hex decode` pipeline on the real binary under simulated stream delivery: "
   "per stage a read plan (chunking down to 1 byte, EINTR incl. on the read that observes EOF, one hard EIO) on stdin or on the input file, "
@@ -27,8 +66,5 @@ CHECKS = [
 ]
 
 PENDING = {
- "C12": "claimed in DESIGN.md §5.1; check under construction in this round (will move to checks)",
  "C16": "claimed in DESIGN.md §5.4; check under construction in this round (will move to checks)",
- "C17": "claimed in DESIGN.md §5.3; check under construction in this round (will move to checks)",
- "C18": "claimed in DESIGN.md §5.2; check under construction in this round (will move to checks)",
 }
